@@ -168,7 +168,9 @@ def run(plan):
                 res.fail(f"discover_single raised {o.exc_type}", f"classes {[h['cls'] for h in plan['hosts']]}: {o.exc!r}")
                 return
             got_t = any(addr[0] == target["ip"] for (_t, _d, addr) in w.net.endpoints[0].received)
-            want = target["cls"] == "good" and got_t
+            # a reply sent well inside the 5 s listening window counts, whatever else arrived before it
+            inside = any(cp[0] <= 4.9 for cp in target["copies"])
+            want = target["cls"] == "good" and (got_t or inside)
             w.fire("unicast_discovery_with_foreign_datagrams")
             if want and o.value is None:
                 res.fail("a good host was not reported", f"discover_single({target['ip']}) returned None; classes "
